@@ -13,7 +13,9 @@ ps=[m['breaks_property']]+[c for c in m['caught_by_quick_checks'] if c!=m['break
 print(' '.join(dict.fromkeys(ps)))
 PY
 )
-  r=$(/verif/seedtest.sh "$d/patch.diff" "$tier" $props 2>&1 | tail -1)
-  echo "$n [$props] -> $r" | tee -a "$out.tmp"
+  full=$(/verif/seedtest.sh "$d/patch.diff" "$tier" $props 2>&1)
+  r=$(echo "$full" | tail -1)
+  sigs=$(echo "$full" | grep -o 'C[0-9][0-9] sig=[^;]*' | sed 's/ sig=/:/' | sort -u | tr '\n' ' ')
+  echo "$n [$props] -> $r  sigs: $sigs" | tee -a "$out.tmp"
 done
 mv "$out.tmp" "$out"
